@@ -301,11 +301,42 @@ TOPIC = "asl_workflow_notifications"
 SM_ARN = stubs.SM_ARN
 
 
+REDIS_URL = "redis://fake:6379"
+
+
+def use_redis():
+    """Redis-backed stores over vf.fake_redis (the tracker thread is never started: queued invalidation
+    messages reach a store only when the harness delivers them)."""
+    from vf import fake_redis as fr
+    fr.install()
+    from asl_workflow_engine import store as st
+    stubs.install_env(st)
+    st.threading = fr.FakeThreading
+    st.RedisStore.__del__ = lambda self: None     # destructor-time clean-up against a server that was reset meanwhile is not a subject
+    return fr, st
+
+
+def new_redis_process():
+    """Forget the class-level connection: the next RedisStore opens a new one, as another process would."""
+    fr, st = use_redis()
+    try:
+        del st.RedisStore.connection
+    except AttributeError:
+        pass
+
+
 class Durable:
     """State that survives an engine crash: the definition store (file/Redis in production)."""
-    def __init__(self):
+    def __init__(self, store="simple"):
         from asl_workflow_engine.store import SimpleStore
-        self.asl_store = SimpleStore()
+        self.store = store
+        if store == "redis":
+            fr, st = use_redis()
+            fr.SERVER.reset()
+            new_redis_process()
+            self.asl_store = st.create_ASL_store(REDIS_URL)
+        else:
+            self.asl_store = SimpleStore()
 
     def add_machine(self, asl, sm_type="STANDARD", name="m", arn=None):
         arn = arn or "arn:aws:states:local:0123456789:stateMachine:" + name
@@ -322,8 +353,17 @@ class Instance:
         stubs.install_env(se, td, edm)
         stubs.install_fast_json(se, td, edm)
         self.se, self.td_mod, self.edm = se, td, edm
-        se.create_ASL_store = lambda url: durable.asl_store
-        cfg = {"state_engine": {"store_url": "mem", "execution_ttl": ttl},
+        if getattr(durable, "store", "simple") == "redis":
+            fr, st = use_redis()
+            new_redis_process()       # this engine instance is a process of its own
+            se.create_ASL_store, se.create_executions_store, se.create_history_store = st.create_ASL_store, st.create_executions_store, st.create_history_store
+            store_url = REDIS_URL
+        else:
+            from asl_workflow_engine import store as st
+            se.create_ASL_store = lambda url: durable.asl_store
+            se.create_executions_store, se.create_history_store = st.create_executions_store, st.create_history_store
+            store_url = "mem"
+        cfg = {"state_engine": {"store_url": store_url, "execution_ttl": ttl},
                "event_queue": {"queue_name": "ev", "queue_type": queue_type, "instance_id": instance_id,
                                "queue_implementation": "sim", "connection_url": "amqp://h:1",
                                "orphaned_response_retention_ms": retention_ms},
